@@ -11,12 +11,13 @@ import (
 
 // Request is one client request: either an array of bulk strings (Args) or raw bytes (Raw).
 type Request struct {
-	Args []Bin  `json:"args,omitempty"`
-	Raw  Bin    `json:"raw,omitempty"`    // sent verbatim when non-empty (inline commands, malformed frames)
-	Cut  []int  `json:"cut,omitempty"`    // sender-side split points inside the encoding (ascending offsets)
-	Wait bool   `json:"wait,omitempty"`   // do not send until every earlier request of this connection is answered
-	Gap  int    `json:"gap_ms,omitempty"` // let this much simulated time pass before sending
-	Tag  string `json:"tag,omitempty"`
+	Args  []Bin  `json:"args,omitempty"`
+	Raw   Bin    `json:"raw,omitempty"`    // sent verbatim when non-empty (inline commands, malformed frames)
+	Cut   []int  `json:"cut,omitempty"`    // sender-side split points inside the encoding (ascending offsets)
+	Wait  bool   `json:"wait,omitempty"`   // do not send until every earlier request of this connection is answered
+	Gap   int    `json:"gap_ms,omitempty"` // let this much simulated time pass before sending
+	GapNs int    `json:"gap_ns,omitempty"` // additional nanoseconds
+	Tag   string `json:"tag,omitempty"`
 }
 
 func (r Request) Encode() []byte {
@@ -140,8 +141,8 @@ func (c *Client) pump() {
 		s := &Sent{Idx: c.next - 1, DoneStep: -1}
 		c.cur = s
 		label := fmt.Sprintf("cl:%s:send#%06d", c.Name, c.seqNext())
-		if r.Gap > 0 {
-			c.rt.AddEventAt(time.Now().Add(time.Duration(r.Gap)*time.Millisecond), label, func() { c.sendChunk(s, true) })
+		if r.Gap > 0 || r.GapNs > 0 {
+			c.rt.AddEventAt(time.Now().Add(time.Duration(r.Gap)*time.Millisecond+time.Duration(r.GapNs)), label, func() { c.sendChunk(s, true) })
 		} else {
 			c.rt.AddEvent(label, func() { c.sendChunk(s, true) })
 		}
